@@ -22,6 +22,10 @@ def load_spec():
         return json.load(f)
 
 
+def _norm_out(o):
+    return "continue" if o in ("Normally", "Skip") else o
+
+
 def rows_of(paths):
     rows = []
     unm = []
@@ -54,7 +58,7 @@ def effect_table(ctx, B, rule="R09.1"):
         for u in sorted(set(unm)):
             ctx.incomplete(rule, "%s:%s" % (v, u), "unmodelled operation on job state in arm %s: %s" % (v, u), loc)
         got = {(r[0], r[1], r[2]) for r in rows}
-        want = {(tuple(r["when"]), tuple(r["effects"]), r["out"]) for r in spec["controls"][v]}
+        want = {(tuple(r["when"]), tuple(r["effects"]), _norm_out(r["out"])) for r in spec["controls"][v]}
         for w in sorted(want):
             cond = ",".join(w[0]) or "always"
             if w in got:
@@ -81,7 +85,7 @@ def effect_table(ctx, B, rule="R09.1"):
     for u in sorted(set(unm)):
         ctx.incomplete(rule, "process-end:%s" % u, "unmodelled operation on job state in the process-end handler: %s" % u, loc)
     got = {(r[0], r[1], r[2]) for r in rows}
-    want = {(tuple(r["when"]), tuple(r["effects"]), r["out"]) for r in spec["process_end"]}
+    want = {(tuple(r["when"]), tuple(r["effects"]), _norm_out(r["out"])) for r in spec["process_end"]}
     for w in sorted(want):
         cond = ",".join(w[0]) or "always"
         if w in got:
@@ -735,11 +739,12 @@ def message_flag(ctx, B, rule="R07.1"):
                 "push(on_end,done)" in eff
             key = "%s[%s]" % (name, ",".join(conds) or "always")
             n += 1
-            if out == "Skip":
-                ctx.require(held and not raised, rule, key, "completion deferred: the control's flag is handed to a holder (%s)" %
-                            [e for e in eff if e.startswith(("arm-", "mark-", "push("))], B.b2.loc(B.b2.line),
-                            fail="%s returns without raising its completion flag and without handing it to the timer / on_end list: "
-                                 "the control's ticket can never resolve" % key)
+            if held and raised:
+                ctx.violation(rule, key + ":raised-and-deferred", "%s both raises its completion flag and hands it to a holder: the ticket resolves "
+                              "before the deferred completion (process end / grace expiry)" % key, B.b2.loc(B.b2.line))
+            elif held:
+                ctx.ok(rule, key, "completion deferred: the control's flag is handed to a holder (%s)" %
+                       [e for e in eff if e.startswith(("arm-", "mark-", "push("))], B.b2.loc(B.b2.line))
             else:
                 ctx.require(raised or held, rule, key, "the control's completion flag is raised before the handler returns (%s)" % out,
                             B.b2.loc(B.b2.line),
